@@ -151,7 +151,7 @@ impl Property for C01 {
         "C01"
     }
     fn rule(&self) -> &'static str {
-        "proptest single cases: gateway config (domain, retention 0-3, 1-3 initial sets, 0-4 honest rotations), signer sets of 1-8 keys with weights from {1, small, 2^64, u128::MAX - rest} and thresholds from {1, total, total-1, subset sums}, a signing subset (full / exactly the threshold subset / one short / random bitmask / prefix), a batch of 1-4 messages, and at most one perturbation (digest component, per-signature corruption, declared-set tampering with or without re-signing, batch substitution, never-installed set); both validate_proof and approve_messages. Oracle: digest = own keccak(domain || keccak(ownXDR(set)) || keccak(ownXDR((kind,batch)))), acceptance = set installed and within retention and weight of verify_strict-valid signatures >= threshold. non-trivial = perturbation present, or signing subset not a prefix, or signed weight == threshold exactly; distinct by Debug hash"
+        "proptest single cases: gateway config (domain, retention 0-3 or u64::MAX(-1), 1-3 initial sets, 0-4 honest rotations), signer sets of 1-8 keys with weights from {1, small, 2^64, u128::MAX - rest} and thresholds from {1, total, total-1, subset sums}, a signing subset (full / exactly the threshold subset / one short / random bitmask / prefix), a batch of 1-4 messages, and at most one perturbation (digest component, per-signature corruption, declared-set tampering with or without re-signing, batch substitution, never-installed set); both validate_proof and approve_messages. Oracle: digest = own keccak(domain || keccak(ownXDR(set)) || keccak(ownXDR((kind,batch)))), acceptance = set installed and within retention and weight of verify_strict-valid signatures >= threshold. non-trivial = perturbation present, or signing subset not a prefix, or signed weight == threshold exactly; distinct by Debug hash"
     }
     fn assumptions(&self) -> Vec<&'static str> {
         vec!["a proof whose valid signatures already reach the threshold but which also carries an invalid signature is unconstrained by the statement (Either)"]
@@ -161,7 +161,7 @@ impl Property for C01 {
     }
     fn strategy(&self, _tier: Tier) -> BoxedStrategy<Case> {
         (
-            (any::<u8>(), 0u8..4, proptest::collection::vec(setgen(8), 1..4), proptest::collection::vec(setgen(8), 0..5)),
+            (any::<u8>(), 0u8..6, proptest::collection::vec(setgen(8), 1..4), proptest::collection::vec(setgen(8), 0..5)),
             (prop_oneof![3 => Just(0u16), 2 => any::<u16>()], maskkind(), proptest::collection::vec(msgspec(), 1..5), perturb(), any::<bool>()),
         )
             .prop_map(|((domain, retention, initial, rotations), (prover, mask, batch, perturb, via))| Case {
@@ -187,8 +187,9 @@ impl Property for C01 {
             sets.push(g.build(i as u8));
         }
         let n_init = case.initial.len();
-        let gw = deploy_gateway(&env, domain, 0, case.retention as u64, &sets[..n_init]).map_err(|e| format!("setup: gateway construction failed: {}", e))?;
-        let mut model = SignerModel { retention: case.retention as u64, ..Default::default() };
+        let retention: u64 = match case.retention { 0..=3 => case.retention as u64, 4 => u64::MAX, _ => u64::MAX - 1 };
+        let gw = deploy_gateway(&env, domain, 0, retention, &sets[..n_init]).map_err(|e| format!("setup: gateway construction failed: {}", e))?;
+        let mut model = SignerModel { retention, ..Default::default() };
         for s in &sets[..n_init] {
             model.install(s.hash());
         }
